@@ -82,13 +82,14 @@ class Ctx:
             self.hist[f"{label}:{tag}"] += 1
             if nontrivial is None or nontrivial(line, b):
                 self.nontrivial.add(line)
+            out.append((line, a, b))
             if a.startswith("SKIP") or b.startswith("SKIP"):
+                self.hist[f"{label}:model-skip"] += 1
                 continue
             if a != b:
                 self.failures.append(Failure("property-failure",
                                              f"implementation answers {a!r} where the verified model (= spec) answers {b!r}",
                                              op=line, impl=a, model=b, extra={"stream": label}))
-            out.append((line, a, b))
         if len(self.samples) < 6 and ops:
             k = self.rng.randrange(len(ops))
             self.samples.append({"op": ops[k], "impl": impl[k], "model": model[k]})
@@ -161,7 +162,10 @@ def main(argv):
         else:
             corpus = load_corpus(prop)
             if corpus:
-                ctx.correspond(corpus, label="corpus")
+                if hasattr(mod, "corpus"):
+                    mod.corpus(ctx, corpus)
+                else:
+                    ctx.correspond(corpus, label="corpus")
             mod.run(ctx)
 
         # ---- classify ----
